@@ -30,6 +30,8 @@ type c26Ctx struct {
 	funcs    map[string]c26Fn
 	validFn  bool // isValidSwampName has the expected definition
 	badKeyFn bool // isValidKey exists but is not the expected definition
+	clampsFrom   Tri // swamp.GetTreasuresByBeacon clamps a negative `from`
+	writerRefuses Tri // v2.FileWriter.WriteEntry refuses empty / over-long keys
 	notes    []string
 	respType map[string]int // response message -> number of fields (-1 unknown)
 }
@@ -1093,6 +1095,50 @@ done:
 	} else {
 		h.main = p.steps
 	}
+	// engine facts: inputs the engine below is known to mishandle must be excluded before it is entered
+	if n := len(h.main); n > 0 && h.main[n-1] == "body" {
+		var needs []string
+		srcAll := f.Str(fd.Body)
+		for name, hf := range cx.funcs {
+			if strings.HasSuffix(name, "OneSwamp") && strings.Contains(srcAll, name+"(") {
+				srcAll += hf.f.Str(hf.fd.Body)
+			}
+		}
+		if strings.Contains(srcAll, "GetTreasuresByBeacon(") && strings.Contains(srcAll, ".GetFrom()") {
+			switch cx.clampsFrom {
+			case No:
+				needs = append(needs, "need fromNeg negfrom")
+			case Unknown:
+				needs = append(needs, "unknown")
+				h.why = append(h.why, "GetTreasuresByBeacon: treatment of a negative from not recognised")
+			}
+		}
+		// (not when the statement that summons checks `IsExistSwamp` itself first, as Get's per-swamp closure does)
+		summonAfterOwnCheck := false
+		ast.Inspect(fd.Body, func(n ast.Node) bool {
+			if fl, ok := n.(*ast.FuncLit); ok {
+				t := f.Str(fl.Body)
+				if i, j := strings.Index(t, ".IsExistSwamp("), strings.Index(t, ".SummonSwamp("); i >= 0 && j > i {
+					summonAfterOwnCheck = true
+				}
+			}
+			return true
+		})
+		if strings.Contains(srcAll, ".SummonSwamp(") && !c26Writes.MatchString(srcAll) && !summonAfterOwnCheck {
+			// SummonSwamp creates the swamp it is asked for: a reader must know that it exists
+			needs = append(needs, "need notExist missingswamp")
+		}
+		if regexp.MustCompile(`\.(CreateTreasure|Increment\w+|PatchFields)\(`).MatchString(srcAll) {
+			switch cx.writerRefuses {
+			case Yes:
+				needs = append(needs, "need keyInvalid badkey")
+			case Unknown:
+				needs = append(needs, "unknown")
+				h.why = append(h.why, "v2 WriteEntry: treatment of empty / over-long keys not recognised")
+			}
+		}
+		h.main = append(append(append([]string{}, h.main[:n-1]...), needs...), "body")
+	}
 	for _, s := range append(append([]string{}, h.val...), h.main...) {
 		if s == "unknown" {
 			flags['u'] = true
@@ -1356,6 +1402,31 @@ func init() {
 					s += ";unknown"
 				}
 				fs.Raw("checkName", fmt.Sprintf("%q", s), s, fmt.Sprintf("%s:%d", cn.f.Path, cn.f.Line(cn.fd)))
+			}
+		}
+
+		// engine facts
+		if sf, err := Load("app/core/hydra/swamp/swamp.go"); err == nil {
+			if fd := sf.Func("swamp", "GetTreasuresByBeacon"); fd != nil {
+				cx.clampsFrom = No
+				for _, st := range fd.Body.List {
+					if ifs, ok := st.(*ast.IfStmt); ok && sf.Str(ifs.Cond) == "from < 0" && len(ifs.Body.List) == 1 && sf.Str(ifs.Body.List[0]) == "from = 0" {
+						cx.clampsFrom = Yes
+					}
+				}
+			}
+		}
+		if wf, err := Load("app/core/hydra/swamp/chronicler/v2/writer.go"); err == nil {
+			if fd := wf.Func("FileWriter", "WriteEntry"); fd != nil {
+				txt := wf.Str(fd.Body)
+				if ve := wf.Func("", "validateEntry"); ve != nil && strings.Contains(txt, "validateEntry(") {
+					txt += wf.Str(ve.Body)
+				}
+				if strings.Contains(txt, "ErrEmptyKey") && strings.Contains(txt, "ErrKeyTooLong") {
+					cx.writerRefuses = Yes
+				} else if !strings.Contains(txt, "len(entry.Key)") && !strings.Contains(txt, "validateEntry(") {
+					cx.writerRefuses = No
+				}
 			}
 		}
 
